@@ -1,17 +1,21 @@
 PROP = dict(
     go='c13', n_quick=1500, n_thorough=15000,
     coq_header='From LC Require Import Lib.Bytes Model.PMS Model.AtomMatch Cases.C13.\nOpen Scope string_scope.\n',
-    case_type='C13.case', verdict='C13.verdict', explain='C13.model',
+    case_type='C13.xcase', verdict='C13.xverdict', explain='C13.xmodel',
     rule='(dependency atom, installed package, parent flags) triples from the PMS grammar, printed and pushed '
          'through the real parser (depend.DecodeDependencies / depend.NewDependencyAtom, '
          'atom.NewUnprefixedConcreteAtom + NewUseFlagSetFromIUSE/SetFlagsFromUSE): near pairs (one to three small '
          'edits apart), pairs with one edit out of the normal form\'s domain (long components, leading zeros, '
          'several suffixes, bare suffix vs 0, continuing components), unrelated pairs, range operators that must '
          'carry (all-nines, letter z, date-like numbers), USE-dependency focus (6 forms x 3 defaults x candidate '
-         'on/off/absent x parent on/off/absent), slot focus (:s :s/ss :s= :* :=). Non-trivial: the two versions '
+         'on/off/absent x parent on/off/absent), slot focus (:s :s/ss :s= :* :=); two fifths of the cases with USE '
+         'dependencies take the candidate and/or the depending package from a generated /var/db/pkg entry read by the '
+         'real loader vdb.GetInstalledPackageList (files IUSE with +/-/no prefixes, IUSE_EFFECTIVE, USE present or '
+         'absent; default-on flags switched off, default-off flags switched on, undeclared USE words). Non-trivial: the two versions '
          'differ or a USE dependency is present; distinct by (atom text, package text, IUSE line, USE line, parent flags)',
     explanation='theorems: comparable-string order = PMS version order on the normal form\'s domain; operator table; '
-                'USE-dependency table over the finite domain; per case Coq evaluates wf, model=obs (comparison '
+                'USE-dependency table over the finite domain; the flag set setAtom loads from a VDB entry = the PMS flags of '
+                'the installed package (declared and listed in USE, prefixes irrelevant); per case Coq evaluates wf, model=obs (comparison '
                 'strings, slots, VersionAndSlotMatch, FlagsMatch, FilterAtoms) and spec(obs) = PMS.matches',
     assumptions=['PMS version comparison, operators, slot and USE dependencies as transcribed in coq/Model/PMS.v from '
                  'the specification (DESIGN.md Appendix D)',
